@@ -32,7 +32,7 @@ RULE = ("cases: package configurations; executions: one call per (chunk size, wi
         "(configuration, window, chunk) whose window holds at least one wavelength and whose chunk size is smaller than the number of wavelengths in the window or divides it")
 ASSUMPTIONS = ["all SED files of a package share one wavelength grid", "window ends exactly on a tabulated wavelength are ambiguous"]
 REQUIRED_CLASSES = ['sorted-table-with-prefix-names', 'one-sided-window', 'seds-regenerated-then-convolved-with-overwrite', 'chunk-divides-range', 'chunk-does-not-divide-range', 'chunk==1', 'single-wavelength-window', 'empty-window', 'default-window', 'window-end-on-wavelength',
-                    'permuted-parameter-table', 'multi-aperture', 'sed-files-wav-ascending', 'seds-in-subdirs-and-gz', 'seds-stored-in-erg/cm2/s', 'convolved-again-after-listing', 'cube-nearest', 'cube-midway', 'cube-outside', 'cube-wavelength-in-other-unit']
+                    'permuted-parameter-table', 'multi-aperture', 'sed-files-wav-ascending', 'seds-in-subdirs-and-gz', 'seds-stored-in-erg/cm2/s', 'convolved-again-after-listing', 'cube-tabulated-in-Jy', 'cube-nearest', 'cube-midway', 'cube-outside', 'cube-wavelength-in-other-unit']
 TIMEOUT = {'quick': 600, 'thorough': 3000}
 
 
@@ -60,7 +60,8 @@ def setup(tier, seed):
     for sord in ('wav-desc', 'wav-asc'):
         for n_ap in (1, 3):
             for memmap in (True, False):
-                out.append({'part': 'cube', 'sord': sord, 'n_ap': n_ap, 'memmap': memmap})
+                for cunit in ('mJy', 'Jy'):          # the cube may be tabulated in either
+                    out.append({'part': 'cube', 'sord': sord, 'n_ap': n_ap, 'memmap': memmap, 'cube_unit': cunit})
     return {'tier': tier, 'seed': seed, 'cases': out}
 
 
@@ -69,7 +70,7 @@ def cases(ctx):
 
 
 def evidence_extra(ctx):
-    return {'bounds': 'n_wav 2..%d; every chunk size 1..n_wav + default; every window over 2n+1 end positions (ordered pairs); deviation-bounded over n_ap{1,2,3}, n_models{1,3,5}, table permutation, spectral order; cube part: 13 requested wavelengths x 2 orders x n_ap{1,3} x memmap'
+    return {'bounds': 'n_wav 2..%d; every chunk size 1..n_wav + default; every window over 2n+1 end positions (ordered pairs); deviation-bounded over n_ap{1,2,3}, n_models{1,3,5}, table permutation, spectral order; cube part: 13 requested wavelengths x 2 orders x n_ap{1,3} x memmap x cube unit{mJy,Jy}'
                       % (5 if ctx['tier'] == 'quick' else 9), 'alphabet_digest': 'cells encode (model, aperture, wavelength)'}
 
 
@@ -336,7 +337,11 @@ def _cube(ctx, case, rec, d):
     os.makedirs(md)
     pkgwriter.write_conf(md, n_ap > 1, version=2)
     pkgwriter.write_parameters(md, names, {'par1': [1.0, 2.0, 3.0]})
-    pkgwriter.write_cube(md, names, wav[::order], val[:, :, ::order], unc=val[:, :, ::order] / 8.0, apertures_au=ap)
+    cunit = case.get('cube_unit', 'mJy')
+    cfac = {'mJy': 1.0, 'Jy': 1e-3}[cunit]
+    if cunit != 'mJy':
+        rec.cls('cube-tabulated-in-Jy')
+    pkgwriter.write_cube(md, names, wav[::order], val[:, :, ::order] * cfac, unc=val[:, :, ::order] * cfac / 8.0, apertures_au=ap, unit=cunit)
     for req, unit in [(r, un) for r in [0.5, 1.0, 1.4, 1.6, 2.0, 2.9, 3.0, 3.1, 4.0, 7.9, 11.9, 12.1, 16.0, 40.0] for un in ('micron', 'nm', 'mm')]:
         sub = {'requested_micron': req, 'given_in': unit}
         if unit != 'micron':
@@ -350,7 +355,7 @@ def _cube(ctx, case, rec, d):
             continue
         rec.ev()
         rec.trans()
-        key = ('cube', case['sord'], n_ap, case['memmap'], req, unit)
+        key = ('cube', case['sord'], n_ap, case['memmap'], req, unit, cunit)
         rec.state(key)
         rec.nontriv(key)
         dist = np.abs(wav - req)
